@@ -224,7 +224,7 @@ def side_cases(thorough):
             yield {'kind': 'side', 'side': 'provides', 'sts': sts, 'mts': mts, 'ports': ports, 'inj': []}
     for sts, mts in itertools.product(R.selections(own_r + ['u', own_p[0], 'i']), repeat=2):
         for ports in R.subsets(own_r):
-            for inj in ([], ['i']):
+            for inj in ([], ['i'], ['i', 'j', 'k']):
                 yield {'kind': 'side', 'side': 'requires', 'sts': sts, 'mts': mts, 'ports': ports, 'inj': inj}
 
 
@@ -245,7 +245,7 @@ def e2e_cases(thorough):
     other_prov = [(own_p[:1], ['NONE', 'ALL']), (own_p[:1], ['ALL', 'NONE'])]
     for sts, mts in itertools.product(R.selections(own_r + ['u', own_p[0], 'i']), repeat=2):
         for ports in R.subsets(own_r):
-            for inj in ([], ['i']):
+            for inj in ([], ['i'], ['i', 'j', 'k']):
                 for prov, psel in other_prov:
                     yield {'kind': 'e2e', 'prov': prov, 'req': ports, 'inj': inj, 'psel': psel, 'rsel': [sts, mts]}
 
@@ -257,7 +257,7 @@ def equal_selection_cases(thorough):
     for sts, mts in itertools.product(R.selections(universe), repeat=2):
         for prov in R.subsets(own_p[:2]):
             for req in R.subsets(own_r[:2]):
-                for inj in ([], ['i']):
+                for inj in ([], ['i'], ['i', 'j', 'k']):
                     yield {'kind': 'e2e', 'prov': prov, 'req': req, 'inj': inj, 'psel': [sts, mts], 'rsel': [sts, mts]}
 
 
@@ -269,7 +269,7 @@ def class_cross_cases(thorough):
         reps = {}
         for sts, mts in itertools.product(R.selections(universe), repeat=2):
             for ports in R.subsets(own):
-                for inj in ([], ['i']) if with_inj else ([],):
+                for inj in ([], ['i'], ['i', 'j', 'k']) if with_inj else ([],):
                     want = R.resolve_side(side, sts, mts, ports, inj)
                     key = (want[0], str(sorted(want[1].items())) if want[0] == 'ACCEPT' else want[1],
                            len(ports), bool(inj))
